@@ -40,6 +40,7 @@ PROP = {
             {'run': 'TestVerifC02Hamilton', 'quick': 20000, 'thorough': 200000},
             {'run': 'TestVerifC02Order', 'quick': 10000, 'thorough': 100000},
             {'run': 'TestVerifC02Tree', 'quick': 3000, 'thorough': 35000},
+            {'run': 'TestVerifC02TreeBuiltin', 'quick': 3000, 'thorough': 35000},
         ],
     }],
     'manifest': {
